@@ -49,7 +49,7 @@ def d1_alignment(ctx):
                              f"{astx.u(d.call)[:80]}: {why}; candidates would be drawn with another candidate's probability")
     ctx.note(f"D1: {weighted} weighted draws among {total} draw sites")
     if weighted < 12:
-        ctx.violated(None, None, "weighted draw sites", f"only {weighted} weighted draws found (floor 12)")
+        ctx.vanished("weighted draw sites" + ": " + f"only {weighted} weighted draws found (floor 12)")
 
 
 def _accept_tests(f):
@@ -188,7 +188,7 @@ def d3_spatial_sort(ctx):
         ctx.check(good, f, srt[0] if srt else f.node, f"{f.short}: candidates ranked by ascending distance from the voter", d,
                   f"ranking is `{d}`; documented sorted(distances, key=distance) with no reverse")
     if n < 3:
-        ctx.violated(None, None, "spatial sort sites", f"{n} of 3 spatial generators sort by distance")
+        ctx.vanished("spatial sort sites" + ": " + f"{n} of 3 spatial generators sort by distance")
 
 
 def d4_interval_indexing(ctx):
